@@ -229,9 +229,9 @@ func (s *c16) Gen(r *kit.Rng) (kit.Op, bool) {
 			return op, true
 		}
 		blk := c16Block(r, s.st)
-		ctor := []int{0, 1, 2, 3, 5, 6, 7}[r.Intn(7)]
+		ctor := []int{0, 1, 2, 3, 5, 6, 7, 8}[r.Intn(8)]
 		op := kit.Op{K: "block", D: kit.Hex(serBlock(blk)), N: []int64{int64(ctor)}}
-		if ctor == 2 {
+		if ctor == 2 || ctor == 8 {
 			op.S = simio.DrawBenign(r).String()
 		}
 		return op, true
@@ -244,12 +244,20 @@ func (s *c16) Gen(r *kit.Rng) (kit.Op, bool) {
 		k := r.Intn(len(s.objs))
 		return kit.Op{K: "block", D: kit.Hex(s.objs[k].raw), N: []int64{4, int64(k)}}, true
 	}
+	// a further wire block that contains the SAME *wire.MsgTx objects as an
+	// existing one, at other positions (block templates share transactions)
+	if len(s.objs) > 0 && len(s.objs) < 3 && r.Chance(1, 16) {
+		k := r.Intn(len(s.objs))
+		if n := len(s.objs[k].own.Transactions); n >= 2 && n <= 60 {
+			return kit.Op{K: "block", N: []int64{9, int64(k), int64(r.Range(1, n-1))}}, true
+		}
+	}
 	// a further wrapper next to the existing ones
 	if len(s.objs) > 0 && len(s.objs) < 3 && r.Chance(1, 8) {
 		blk := c16Block(r, s.st)
-		ctor := []int{0, 1, 2, 3, 5, 5, 6, 7}[r.Intn(8)]
+		ctor := []int{0, 1, 2, 3, 5, 5, 6, 7, 8}[r.Intn(9)]
 		op := kit.Op{K: "block", D: kit.Hex(serBlock(blk)), N: []int64{int64(ctor)}}
-		if ctor == 2 {
+		if ctor == 2 || ctor == 8 {
 			op.S = simio.DrawBenign(r).String()
 		}
 		return op, true
@@ -268,6 +276,9 @@ func (s *c16) Gen(r *kit.Rng) (kit.Op, bool) {
 		}
 		if isTx == 0 && s.ref != nil && len(s.ref.Transactions) > 0 && len(s.ref.Transactions) < 60 && r.Chance(1, 3) {
 			src, isTx = serTx(s.ref.Transactions[r.Intn(len(s.ref.Transactions))]), 1
+		}
+		if len(src) > 0 && r.Chance(1, 3) {
+			return kit.Op{K: "transientread", D: kit.Hex(src), N: []int64{isTx}, S: simio.DrawTransient(r, len(src)).String()}, true
 		}
 		return kit.Op{K: "faultread", D: kit.Hex(src), N: []int64{isTx}, S: simio.DrawDestructive(r, len(src)).String()}, true
 	}
@@ -332,6 +343,9 @@ func (s *c16) Apply(o kit.Op) *kit.Violation {
 		if len(s.objs) >= 3 || s.stx != nil {
 			return nil
 		}
+		if o.Arg(0) == 9 {
+			return s.sharedTxBlock(int(o.Arg(1)), int(o.Arg(2)))
+		}
 		s.c16Obj = &c16Obj{seen: map[int]*bchutil.Tx{}, height: bchutil.BlockHeightUnknown}
 		raw := o.Data()
 		var ref, own wire.MsgBlock
@@ -374,6 +388,25 @@ func (s *c16) Apply(o kit.Op) *kit.Violation {
 				return kit.V("construct:NewBlockFromReader-failed-on-benign-reader", "bytes.Buffer reader gave error %v", err)
 			}
 			s.st.Probe("block-from-reused-bytes.Buffer")
+			s.blk, s.own = b, b.MsgBlock()
+		case 8:
+			// two messages back to back in ONE stream (a peer connection):
+			// each constructor call must consume exactly its message
+			rd := simio.NewReader(append(append([]byte(nil), raw...), raw...), simio.ParsePlan(o.S))
+			b, err := bchutil.NewBlockFromReader(rd)
+			if err != nil || b == nil {
+				s.fire(rd)
+				return kit.V("construct:NewBlockFromReader-failed-on-benign-reader", "first block of a two-block stream (plan %s): %v", o.S, err)
+			}
+			b2, err := bchutil.NewBlockFromReader(rd)
+			s.fire(rd)
+			if err != nil || b2 == nil {
+				return kit.V("stream:second-message-lost", "the second of two blocks sent back to back in one stream could not be read (%v): the first read consumed more than its message", err)
+			}
+			if !bytes.Equal(serBlock(b2.MsgBlock()), raw) {
+				return kit.V("stream:second-message-lost", "the second of two identical blocks in one stream parsed to a different block")
+			}
+			s.st.Probe("two-blocks-from-one-stream")
 			s.blk, s.own = b, b.MsgBlock()
 		case 7:
 			// from a *bytes.Reader that is NOT at offset 0: a framed stream
@@ -494,6 +527,47 @@ func (s *c16) Apply(o kit.Op) *kit.Violation {
 			return kit.V("reader-fault:half-built-object-returned", "construction failed (%v) under reader plan %s but returned a non-nil wrapper", err, o.S)
 		}
 		s.st.Probe("torn-stream-rejected-cleanly")
+	case "transientread":
+		// one error reported TOGETHER with data, after which the stream goes
+		// on: the constructor may fail (nil, err) or - when the read that
+		// carried the error was complete - succeed with the whole, correct
+		// message; it must never hand out a damaged or partial object
+		raw := o.Data()
+		plan := simio.ParsePlan(o.S)
+		if plan.FaultKind != "transient" || len(raw) == 0 {
+			return nil
+		}
+		rd := simio.NewReader(raw, plan)
+		var got []byte
+		var err error
+		isNil := true
+		if o.Arg(0) == 1 {
+			var t *bchutil.Tx
+			t, err = bchutil.NewTxFromReader(rd)
+			if t != nil {
+				isNil, got = false, serTx(t.MsgTx())
+			}
+		} else {
+			var b *bchutil.Block
+			b, err = bchutil.NewBlockFromReader(rd)
+			if b != nil {
+				isNil, got = false, serBlock(b.MsgBlock())
+			}
+		}
+		s.fire(rd)
+		switch {
+		case err != nil && !isNil:
+			return kit.V("reader-fault:half-built-object-returned", "construction failed (%v) under reader plan %s but returned a non-nil wrapper", err, o.S)
+		case err == nil && isNil:
+			return kit.V("reader-fault:nil-without-error", "reader plan %s: neither object nor error", o.S)
+		case err == nil && !bytes.Equal(got, raw):
+			return kit.V("reader-fault:damaged-object-accepted", "a read error reported together with data (plan %s) was dropped and the constructor returned an object that does not serialise to the bytes sent", o.S)
+		}
+		if err == nil {
+			s.st.Probe("transient-error-on-complete-read-tolerated")
+		} else {
+			s.st.Probe("transient-error-rejected")
+		}
 	case "sweep":
 		s.swept = true
 		return s.sweep()
@@ -655,6 +729,35 @@ func (s *c16) Apply(o kit.Op) *kit.Violation {
 			}
 		}
 	}
+	return nil
+}
+
+// sharedTxBlock wraps a new wire block whose transactions are the same
+// *wire.MsgTx objects as wrapper k's, rotated by rot positions.
+func (s *c16) sharedTxBlock(k, rot int) *kit.Violation {
+	if k < 0 || k >= len(s.objs) {
+		return nil
+	}
+	src := s.objs[k].own
+	n := len(src.Transactions)
+	if n < 2 || rot < 1 || rot >= n {
+		return nil
+	}
+	hdr := src.Header
+	hdr.Nonce ^= 0x5a5a5a5a
+	msg := wire.NewMsgBlock(&hdr)
+	for i := 0; i < n; i++ {
+		_ = msg.AddTransaction(src.Transactions[(i+rot)%n])
+	}
+	raw := serBlock(msg)
+	var ref wire.MsgBlock
+	if ref.Deserialize(bytes.NewReader(raw)) != nil {
+		return nil
+	}
+	s.c16Obj = &c16Obj{seen: map[int]*bchutil.Tx{}, height: bchutil.BlockHeightUnknown, raw: raw, ref: &ref, own: msg, ctor: 9}
+	s.blk = bchutil.NewBlock(msg)
+	s.objs = append(s.objs, s.c16Obj)
+	s.st.Probe("two-blocks-sharing-transaction-objects")
 	return nil
 }
 
